@@ -177,7 +177,7 @@ class CountingSource:
 
 
 class Observation:
-    __slots__ = ("events", "raw", "outcome", "obj", "pulled", "pulled_at", "warnings", "remaining_is_iter")
+    __slots__ = ("events", "raw", "outcome", "obj", "pulled", "pulled_at", "warnings", "remaining_is_iter", "delivery")
 
     def __init__(self):
         self.events = []  # tuples
@@ -187,12 +187,38 @@ class Observation:
         self.pulled = None
         self.pulled_at = []  # bytes pulled when each event was delivered
         self.warnings = []  # (index in events, described error)
+        self.delivery = None  # name of the delivery context used instead of Binary.marshal over bytes (see context.py)
+
+
+_MIX = False
+DELIVERIES = {}  # name -> number of decodes delivered that way (per process)
+
+
+_MIX_EXCLUDE = ()
+
+
+def mix(on=True, exclude=()):
+    """Opt in: a deterministic share of the decodes of this process goes through the other front ends / byte sources.
+    `exclude`: deliveries that do not apply to the check (pcapng for checks that look at the object the decoder returns:
+    the pcapng front end does not pass it on, which no property claims)."""
+    global _MIX, _MIX_EXCLUDE
+    _MIX = bool(on)
+    _MIX_EXCLUDE = tuple(exclude)
 
 
 def run_decode(tname_or_type, data, command_code=None, enc=None, strict=True, source=None, max_events=None, marshal=None, root="", **extra):
     """Run the library's decoder to its end.  Returns an Observation; never raises."""
     tpm_type = lib_type(tname_or_type) if isinstance(tname_or_type, str) else tname_or_type
     obs = Observation()
+    if _MIX and source is None and marshal is None and not extra:
+        from . import context
+
+        kind = context.choose(tpm_type.__name__, data)
+        got = context.deliver(kind, tpm_type.__name__, data, lib_type) if kind and kind not in _MIX_EXCLUDE else None
+        if got is not None:
+            marshal, source = got[0], got[1]
+            obs.delivery = kind
+            DELIVERIES[kind] = DELIVERIES.get(kind, 0) + 1
     src = CountingSource(data) if source is None else source
     kwargs = dict(tpm_type=tpm_type, buffer=src, abort_on_error=strict)
     if command_code is not None:
@@ -243,4 +269,6 @@ def run_decode(tname_or_type, data, command_code=None, enc=None, strict=True, so
             raise
         obs.outcome = crash_signature(exc)
     obs.pulled = getattr(src, "pulled", None)
+    if obs.delivery is not None:
+        obs.pulled_at = [None] * len(obs.pulled_at)
     return obs
